@@ -10,7 +10,7 @@ namespace Tie.Processor
 theorem tie_uplinkLookup : Facts.Processor.decrypterVerifyAndDecryptMessageCalls = ["Storage.GetDeviceByDevAddr!"] := by decide
 
 theorem tie_uplinkHandler : Facts.Processor.decrypterProcessMessageCalls =
-    ["Storage.UpdateDeviceState!", "Storage.CreateUpstreamMessage!", "Storage.GetApplicationByEUI!", "FrameOutput.SetMessageAckFlag",
+    ["Storage.AdvanceFCntUp!", "Storage.CreateUpstreamMessage!", "Storage.GetApplicationByEUI!", "FrameOutput.SetMessageAckFlag",
      "Storage.UpdateMessageAckTime", "Storage.ResetActiveAcks?", "Storage.GetNextUnsentMessage?", "FrameOutput.SetPayload",
      "Storage.SetMessageSentTime"] := by decide
 
@@ -21,7 +21,7 @@ theorem tie_joinHandler : Facts.Processor.decrypterProcessJoinRequestCalls =
      "FrameOutput.SetJoinAcceptPayload"] := by decide
 
 theorem tie_encoder : Facts.Processor.encoderProcessMessageCalls =
-    ["Storage.UpdateDeviceState!", "Storage.SetMessageSentTime?", "Storage.UpdateDeviceState!"] := by decide
+    ["Storage.UpdateDeviceState!", "Storage.NextFCntDn!", "Storage.SetMessageSentTime?"] := by decide
 
 theorem tie_joinRequestSize : Facts.Processor.joinRequestSize = some 23 := by decide
 
